@@ -138,6 +138,8 @@ def run_case(rng, tier, idx):
     c = Case({'panel': d})
     c.tag('model:' + d['model'], 'path:state' if state_path else 'path:analytic')
     p = gen.build_panel(d)
+    for k_ in gen.leftovers(rng, p, loads=False):
+        c.tag('left:' + k_)
     num = 1 if d['model'] == 'plate_w' else 3
     size_p = num * d['m'] * d['n']
     row0 = d['row0']
@@ -157,8 +159,11 @@ def run_case(rng, tier, idx):
         c.tag('load:' + kind)
         c.nontrivial = kind != 'uniaxial'
         p.Nxx, p.Nyy, p.Nxy = N
+        fresh = bool(rng.random() < 0.4)
+        c.tag('order:fresh' if fresh else 'order:k0_first')
         try:
-            p.calc_k0(silent=True)   # derives r/alpharad (history dependence is C20's subject)
+            if not fresh:
+                p.calc_k0(silent=True)
             KG = p.calc_kG0(size=d['size'], row0=row0, col0=row0, silent=True)
         except Exception as e:
             return c.reject('%s in calc_kG0: %s' % (type(e).__name__, str(e)[:100]))
